@@ -97,6 +97,8 @@ class Tr:
                 return f'(max {self(node.args[0])} {self(node.args[1])})'
             if f == 'np.fmin' and len(node.args) == 2:
                 return f'(min {self(node.args[0])} {self(node.args[1])})'
+            if f == 'np.clip' and len(node.args) == 3:
+                return f'(min (max {self(node.args[0])} {self(node.args[1])}) {self(node.args[2])})'
             if f == 'max' and len(node.args) == 2:
                 return f'(max {self(node.args[0])} {self(node.args[1])})'
             if f == 'int' and len(node.args) == 1:
@@ -553,20 +555,110 @@ def _g_pindex():
     return out
 
 
+def _s_cmp_block():
+    """compare.py get_block_sums: what one jointly valid pixel (x = source, y = reference) adds to each of the seven sums"""
+    from homonim.compare import RasterCompare
+    fn = fn_body(src_of(RasterCompare.process), 'get_block_sums')
+    want = [('src_array', 'src_ra.array'), ('ref_array', 'ref_ra.array'), ('mask', 'ref_ra.mask & src_ra.mask'),
+            ('src_array[~mask]', '0'), ('ref_array[~mask]', '0')]
+    got = [(t, U(v)) for t, v, _ in assigns(fn) if t in dict(want)]
+    if got != want:
+        raise TranslationError(f'get_block_sums: masking statements {got}')
+    d = the_assign(fn, 'sums_dict')
+    if not (isinstance(d, ast.Call) and U(d.func) == 'dict'):
+        raise TranslationError('get_block_sums: sums_dict')
+    tr = Tr({'src_array': 'x', 'ref_array': 'y'})
+    out = []
+    names = {'src_sum': 'src', 'ref_sum': 'ref', 'src2_sum': 'src2', 'ref2_sum': 'ref2', 'src_ref_sum': 'srcRef', 'res2_sum': 'res2'}
+    if [k.arg for k in d.keywords] != list(names) + ['mask_sum']:
+        raise TranslationError(f'get_block_sums: keys {[k.arg for k in d.keywords]}')
+    for k in d.keywords[:-1]:
+        v = k.value
+        if not (isinstance(v, ast.Call) and isinstance(v.func, ast.Attribute) and v.func.attr == 'sum' and not v.args):
+            raise TranslationError(f'get_block_sums: `{U(v)}` is not a plain sum')
+        out.append((f'cmpPx_{names[k.arg]}', '(x y : Rat)', 'Rat', tr(v.func.value), f'get_block_sums: {k.arg} = {U(v)}'))
+    if U(d.keywords[-1].value) != 'mask.sum()':
+        raise TranslationError('get_block_sums: mask_sum')
+    out.append(('cmpPx_n', '(x y : Rat)', 'Rat', '(1 : Rat)', 'get_block_sums: mask_sum = mask.sum()'))
+    return out
+
+
+def _m_cover():
+    """kernel_model.py _full_coverage_mask: coverage threshold, combination with the parameter mask, erosion element"""
+    from homonim.kernel_model import KernelModel
+    fn = fn_body(src_of(KernelModel._full_coverage_mask))
+    want = {'mask_ra': 'in_mask_ra.reproject(**param_ra.proj_profile, nodata=None, resampling=Resampling.average)',
+            'mask': "(mask_ra.array >= 1).astype('uint8', copy=False)",
+            'se': 'cv.getStructuringElement(cv.MORPH_RECT, tuple(np.array(self._kernel_shape[::-1]) + 2))',
+            'mask_ra.array': 'cv.erode(mask, se, borderType=cv.BORDER_CONSTANT, borderValue=0)'}
+    for t, v in want.items():
+        if U(the_assign(fn, t)) != v:
+            raise TranslationError(f'_full_coverage_mask: `{t}` = `{U(the_assign(fn, t))}`')
+    if U(the_assign(fn, 'mask BitAnd=')) != 'param_ra.mask':
+        raise TranslationError('_full_coverage_mask: combination with the parameter mask')
+    return [('cover_full', '(a : Rat)', 'Bool', '(decide ((1 : Rat) ≤ a))', '_full_coverage_mask: mask_ra.array >= 1 (average of the 0/1 mask)'),
+            ('cover_erodeSize', '(k : Nat)', 'Nat', '(k + 2)', '_full_coverage_mask: structuring element kernel_shape + 2, false border')]
+
+
+def _a_bounded():
+    """raster_array.py bounded_window_slices, per axis: window [lo, hi) on a dataset axis of n pixels"""
+    from homonim.raster_array import RasterArray
+    fn = fn_body(src_of(RasterArray.bounded_window_slices))
+    if U(the_assign(fn, 'win_ul')) != 'np.array((window.row_off, window.col_off))' or \
+            U(the_assign(fn, 'win_br')) != 'win_ul + np.array((window.height, window.width))':
+        raise TranslationError('bounded_window_slices: window corners')
+    env = {'win_ul': 'lo', 'win_br': 'hi', '(0, 0)': '(0 : Int)', 'rio_dataset.shape': 'n'}
+    tr = Tr(env, 'Int')
+    env['bounded_ul'] = tr(the_assign(fn, 'bounded_ul'))
+    tr = Tr(env, 'Int')
+    env['bounded_br'] = tr(the_assign(fn, 'bounded_br'))
+    tr = Tr(env, 'Int')
+    env['bounded_start'] = tr(the_assign(fn, 'bounded_start'))
+    tr = Tr(env, 'Int')
+    stop = tr(the_assign(fn, 'bounded_stop'))
+    bw = U(the_assign(fn, 'bounded_window')).replace(' ', '').replace('\n', '')
+    if bw != 'Window(col_off=bounded_ul[1],row_off=bounded_ul[0],width=bounded_br[1]-bounded_ul[1],height=bounded_br[0]-bounded_ul[0])':
+        raise TranslationError(f'bounded_window_slices: bounded_window = `{bw}`')
+    sl = U(the_assign(fn, 'bounded_slices')).replace(' ', '')
+    if sl != '(slice(bounded_start[0],bounded_stop[0],None),slice(bounded_start[1],bounded_stop[1],None))':
+        raise TranslationError(f'bounded_window_slices: bounded_slices = `{sl}`')
+    sym = '(n lo hi : Int)'
+    return [('bounded_ul', sym, 'Int', env['bounded_ul'], 'bounded_window_slices: bounded_ul'),
+            ('bounded_br', sym, 'Int', env['bounded_br'], 'bounded_window_slices: bounded_br'),
+            ('bounded_start', sym, 'Int', env['bounded_start'], 'bounded_window_slices: bounded_start'),
+            ('bounded_stop', sym, 'Int', stop, 'bounded_window_slices: bounded_stop')]
+
+
+def _p_r2band():
+    """stats.py: which bands of a parameter image are R2 bands (in-paint percentage is reported for them)"""
+    from homonim.stats import ParamStats
+    fn = fn_body(src_of(ParamStats.stats), 'get_block_sums')
+    tests = [U(n.test).replace(' ', '') for n in ast.walk(fn) if isinstance(n, ast.If)]
+    if tests != ['self._model==Model.gain_offsetandself._r2_inpaint_threshisnotNoneand(band_i>=self._param_im.count*2/3)']:
+        raise TranslationError(f'ParamStats.get_block_sums: R2 band test {tests}')
+    upd = [U(n) for n in ast.walk(fn) if isinstance(n, ast.Call) and U(n.func) == '_block_dict.update']
+    if upd != ['_block_dict.update(inpaint_sum=(array < self._r2_inpaint_thresh).sum())']:
+        raise TranslationError(f'ParamStats.get_block_sums: in-paint count {upd}')
+    return [('stats_isR2Band', '(count b : Nat)', 'Bool', '(decide (((count : Rat) * 2) / 3 ≤ (b : Rat)))',
+             'ParamStats: band_i >= count * 2 / 3'),
+            ('stats_inpainted', '(v t : Rat)', 'Bool', '(decide (v < t))', 'ParamStats: array < r2_inpaint_thresh')]
+
+
 # one extractor per source function: a failure in one leaves the others (and the properties they serve) alone
 SECTIONS = [_k_fit_gain, _k_fit_gain_offset, _k_r2, _k_blk, _s_cmp, _s_cmp_mean, _s_stats, _g_blocks, _g_resolve, _g_auto,
-            _g_overlap, _g_expand, _g_round, _g_covers, _g_pindex]
+            _g_overlap, _g_expand, _g_round, _g_covers, _g_pindex, _s_cmp_block, _m_cover, _a_bounded, _p_r2band]
 # definition-name prefixes each extractor is responsible for (used to attribute a failed extraction to properties)
 PROVIDES = {'_k_fit_gain': ('fitGain_',), '_k_fit_gain_offset': ('fitGainOffset_',), '_k_r2': ('r2_',),
             '_k_blk': ('blk_', 'blockNorm_', 'applyParams'), '_s_cmp': ('cmp_',), '_s_cmp_mean': ('cmp_meanRow',),
             '_s_stats': ('stats_',), '_g_blocks': ('blocks_',), '_g_resolve': ('resolveAutoIsRef',), '_g_auto': ('autoBlock_',),
             '_g_overlap': ('overlapForKernel',), '_g_expand': ('expandWindow_',), '_g_round': ('roundBounds_',),
-            '_g_covers': ('covers_axis',), '_g_pindex': ('paramIndex',)}
+            '_g_covers': ('covers_axis',), '_g_pindex': ('paramIndex',), '_s_cmp_block': ('cmpPx_',), '_m_cover': ('cover_',),
+            '_a_bounded': ('bounded_',), '_p_r2band': ('stats_isR2Band', 'stats_inpainted')}
 # which generated definitions (by name prefix) bear on which property's check
 SERVES = {
     'C01': ('fitGain', 'r2_', 'blk_', 'blockNorm_'), 'C02': ('fitGain', 'r2_', 'blk_', 'blockNorm_', 'applyParams'),
     'C07': ('fitGain', 'r2_', 'blk_', 'blockNorm_', 'applyParams'), 'C14': ('applyParams', 'paramIndex'),
-    'C11': ('cmp_',), 'C12': ('stats_',), 'C05': ('overlapForKernel', 'blocks_'),
+    'C11': ('cmp_', 'cmpPx_'), 'C12': ('stats_',), 'C17': ('cover_',), 'C20': ('bounded_',), 'C05': ('overlapForKernel', 'blocks_'),
     'C06': ('blocks_', 'expandWindow_', 'roundBounds_', 'autoBlock_'), 'C16': ('covers_axis',), 'C18': ('resolveAutoIsRef',),
 }
 # theorems outside Props/Cxx.lean audited with a property's proof leg: (module, theorem name prefix) - the source-text tie
@@ -579,6 +671,7 @@ TIE = {
     'C07': [('SrcTieKernel', 'src_C01_')], 'C14': [('SrcTieKernel', 'src_C14_'), ('SrcTieGeom', 'src_C14_')],
     'C11': [('SrcTieStats', 'src_C11_')], 'C12': [('SrcTieStats', 'src_C12_')], 'C05': [('SrcTieGeom', 'src_C05_'), ('SrcTieGeom', 'src_C06_block'), ('E2E', 'block_transparent'), ('E2E', 'partitions_agree')],
     'C06': [('SrcTieGeom', 'src_C06_')], 'C16': [('SrcTieGeom', 'src_C16_')], 'C18': [('SrcTieGeom', 'src_C18_')],
+    'C17': [('SrcTieGeom', 'src_C17_')], 'C20': [('SrcTieGeom', 'src_C20_')],
 }
 
 
